@@ -47,7 +47,11 @@ ForLang(L, base) ==
       CS == <<" ", ", ", ". ">>
       n3 == IF CoreLen = 0 THEN 0 ELSE ExCount(CoreWords[L], CS, CoreLen)
       core == [j \in 1..n3 |-> Req(L, base + n1 + n2 + RandN + j, ExText(CoreWords[L], CS, CoreLen, j - 1))]
-  IN singles \o ex \o rnd \o core
+      \* thorough tier: every text of CoreLen2 words over the core alphabet separated by single blanks
+      CoreLen2 == IF "corelen2" \in DOMAIN Params THEN Params.corelen2 ELSE 0
+      n4 == IF CoreLen2 = 0 THEN 0 ELSE ExCount(CoreWords[L], <<" ">>, CoreLen2)
+      core2 == [j \in 1..n4 |-> Req(L, base + n1 + n2 + RandN + n3 + j, ExText(CoreWords[L], <<" ">>, CoreLen2, j - 1))]
+  IN singles \o ex \o rnd \o core \o core2
 
 RECURSIVE All(_, _)
 All(k, base) == IF k > Len(LangsToDo) THEN <<>>
